@@ -20,6 +20,8 @@ type comparison =
 
 val add : nat -> nat -> nat
 
+val mul : nat -> nat -> nat
+
 val sub : nat -> nat -> nat
 
 module Nat :
@@ -51,9 +53,17 @@ val flat_map : ('a1 -> 'a2 list) -> 'a1 list -> 'a2 list
 
 val fold_left : ('a1 -> 'a2 -> 'a1) -> 'a2 list -> 'a1 -> 'a1
 
+val existsb : ('a1 -> bool) -> 'a1 list -> bool
+
+val forallb : ('a1 -> bool) -> 'a1 list -> bool
+
 val find : ('a1 -> bool) -> 'a1 list -> 'a1 option
 
+val firstn : nat -> 'a1 list -> 'a1 list
+
 val skipn : nat -> 'a1 list -> 'a1 list
+
+val repeat : 'a1 -> nat -> 'a1 list
 
 type positive =
 | XI of positive
@@ -290,6 +300,8 @@ val h_run : uData -> hist -> hop list -> hist * hout list
 
 val file_version_v2 : n list
 
+val indent_max : nat
+
 val default_break_chars : n list
 
 val escape_char : n
@@ -488,3 +500,334 @@ val filename_complete :
   dentry list -> str -> n option -> (n -> bool) -> quote -> (str * str) list
 
 val complete_path : dentry list -> str -> nat * (str * str) list
+
+val slice_from : str -> nat -> str res
+
+val slice_to : str -> nat -> str res
+
+val slice : str -> nat -> nat -> str res
+
+val str_drain : str -> nat -> nat -> (str * str) res
+
+val str_insert : str -> nat -> str -> str res
+
+val find_char : n -> str -> nat option
+
+val rfind_char : n -> str -> nat option
+
+val lF : n
+
+type word_def =
+| WBig
+| WEmacs
+| WVi
+
+type at_pos =
+| AtStart
+| AtBeforeEnd
+| AtAfterEnd
+
+type char_search =
+| CsForward of n
+| CsForwardBefore of n
+| CsBackward of n
+| CsBackwardAfter of n
+
+type movement =
+| MWholeLine
+| MBeginningOfLine
+| MEndOfLine
+| MBackwardWord of nat * word_def
+| MForwardWord of nat * at_pos * word_def
+| MViCharSearch of nat * char_search
+| MViFirstPrint
+| MBackwardChar of nat
+| MForwardChar of nat
+| MLineUp of nat
+| MLineDown of nat
+| MWholeBuffer
+| MBeginningOfBuffer
+| MEndOfBuffer
+
+type word_action =
+| Capitalize
+| Lowercase
+| Uppercase
+
+type direction =
+| DForward
+| DBackward
+
+type event =
+| EInsertChar of nat * n
+| EInsertStr of nat * str
+| EDelete of nat * str * direction
+| EReplace of nat * str * str
+| EStartKill
+| EStopKill
+
+type lb = { buf : str; pos : nat; cap : nat; grow : bool }
+
+val lb_len : lb -> nat
+
+val set_buf : lb -> str -> lb
+
+val set_pos' : lb -> nat -> lb
+
+val must_truncate : lb -> nat -> bool
+
+val index_from : nat -> str list -> (nat * str) list
+
+val gindices : (str -> str list) -> str -> (nat * str) list
+
+type 'a m = lb -> (('a * lb) * event list) res
+
+val ret : 'a1 -> 'a1 m
+
+val bind : 'a1 m -> ('a1 -> 'a2 m) -> 'a2 m
+
+val get : lb m
+
+val put_pos : nat -> unit m
+
+val fail : 'a1 m
+
+val lift : 'a1 res -> 'a1 m
+
+val emit : event -> unit m
+
+val drain : nat -> nat -> direction -> str m
+
+val insert_str : nat -> str -> bool m
+
+val insert_char_at : nat -> n -> unit m
+
+val replace_range : nat -> nat -> str -> unit m
+
+val end_of_line : lb -> nat res
+
+val start_of_line : lb -> nat res
+
+val last_opt0 : 'a1 list -> 'a1 option
+
+val next_pos : (str -> str list) -> lb -> nat -> nat option res
+
+val prev_pos : (str -> str list) -> lb -> nat -> nat option res
+
+val all_alnum : uData -> str -> bool
+
+val any_ws : uData -> str -> bool
+
+val is_vi_word_char : uData -> str -> bool
+
+val is_other_char : uData -> str -> bool
+
+val is_word_char : uData -> word_def -> str -> bool
+
+val is_vi : word_def -> bool
+
+val is_emacs : word_def -> bool
+
+val is_start_of_word : uData -> word_def -> str -> str -> bool
+
+val is_end_of_word : uData -> word_def -> str -> str -> bool
+
+val pw_inner :
+  uData -> word_def -> (nat * str) -> (nat * str) list -> (nat * (nat * str)
+  list) option
+
+val pw_outer : uData -> word_def -> nat -> (nat * str) list -> nat -> nat
+
+val prev_word_pos :
+  uData -> (str -> str list) -> lb -> nat -> word_def -> nat -> nat option res
+
+val at_is_start : at_pos -> bool
+
+val at_is_after : at_pos -> bool
+
+val at_is_before : at_pos -> bool
+
+val nw_inner :
+  uData -> at_pos -> word_def -> (nat * str) -> (nat * str) list ->
+  (nat * (nat * str) list) option * (nat * str)
+
+val nw_outer :
+  uData -> at_pos -> word_def -> nat -> (nat * str) list -> nat ->
+  (nat * str) option -> nat * (nat * str) option
+
+val next_word_pos :
+  uData -> (str -> str list) -> lb -> nat -> at_pos -> word_def -> nat -> nat
+  option res
+
+val char_hits : n -> str -> nat -> nat list
+
+val last_char_len : str -> nat option
+
+val search_char_pos :
+  (str -> str list) -> lb -> char_search -> nat -> nat option res
+
+val lines_up_loop : str -> nat -> nat -> nat res
+
+val n_lines_up : lb -> nat -> (nat * nat) option res
+
+val lines_down_loop : str -> nat -> nat -> nat -> nat res
+
+val n_lines_down : lb -> nat -> (nat * nat) option res
+
+val set_pos : nat -> unit m
+
+val move_backward : (str -> str list) -> nat -> bool m
+
+val move_forward : (str -> str list) -> nat -> bool m
+
+val move_buffer_start : bool m
+
+val move_buffer_end : bool m
+
+val move_home : bool m
+
+val move_end : bool m
+
+val trim_end_len : uData -> str -> nat
+
+val is_end_of_input : uData -> lb -> bool
+
+val repeat_str : str -> nat -> str
+
+val insert : n -> nat -> bool option m
+
+val yank : str -> nat -> bool option m
+
+val yank_pop : nat -> str -> bool option m
+
+val delete : (str -> str list) -> nat -> str option m
+
+val backspace : (str -> str list) -> nat -> bool m
+
+val kill_line : (str -> str list) -> bool m
+
+val kill_buffer : bool m
+
+val discard_line : (str -> str list) -> bool m
+
+val discard_buffer : bool m
+
+val transpose_chars : (str -> str list) -> bool m
+
+val move_to_prev_word :
+  uData -> (str -> str list) -> word_def -> nat -> bool m
+
+val delete_prev_word : uData -> (str -> str list) -> word_def -> nat -> bool m
+
+val move_to_next_word :
+  uData -> (str -> str list) -> at_pos -> word_def -> nat -> bool m
+
+val delete_word :
+  uData -> (str -> str list) -> at_pos -> word_def -> nat -> bool m
+
+val move_to : (str -> str list) -> char_search -> nat -> bool m
+
+val delete_to : (str -> str list) -> char_search -> nat -> bool m
+
+val first_alnum : uData -> (nat * str) list -> nat option
+
+val skip_whitespace : uData -> (str -> str list) -> lb -> nat option res
+
+val to_upper : uData -> str -> str
+
+val to_lower : uData -> str -> str
+
+val edit_word : uData -> (str -> str list) -> word_action -> bool m
+
+val transpose_words : uData -> (str -> str list) -> nat -> bool m
+
+val replace : nat -> nat -> str -> unit m
+
+val delete_range : nat -> nat -> unit m
+
+val boundary_down : str -> nat -> nat -> nat
+
+val update : str -> nat -> unit m
+
+val vi_first_print_pos : uData -> (str -> str list) -> lb -> nat option res
+
+val copy : uData -> (str -> str list) -> lb -> movement -> str option res
+
+val notifies : movement -> bool
+
+val kill : uData -> (str -> str list) -> movement -> bool m
+
+val split_lf : str -> str -> str list
+
+val leading_ws_bytes : uData -> str -> nat
+
+val dedent_lines : uData -> str list -> nat -> nat -> unit m
+
+val indent_chunks : nat -> nat -> nat -> nat -> unit m
+
+val indent_lines : str list -> nat -> nat -> unit m
+
+val indent : uData -> (str -> str list) -> movement -> nat -> bool -> bool m
+
+val line_up_loop : str -> nat -> nat -> nat -> (nat * nat) res
+
+val move_to_line_up :
+  (str -> str list) -> (str -> nat) -> nat -> nat -> bool m
+
+val line_down_loop : str -> nat -> nat -> nat -> nat -> (nat * nat) res
+
+val move_to_line_down :
+  (str -> str list) -> (str -> nat) -> nat -> nat -> bool m
+
+type lbop =
+| OpIns of n * nat
+| OpYank of str * nat
+| OpYankPop of nat * str
+| OpMoveBackward of nat
+| OpMoveForward of nat
+| OpBufferStart
+| OpBufferEnd
+| OpHome
+| OpEnd
+| OpIsEndOfInput
+| OpDelete of nat
+| OpBackspace of nat
+| OpKillLine
+| OpKillBuffer
+| OpDiscardLine
+| OpDiscardBuffer
+| OpTransposeChars
+| OpPrevWord of word_def * nat
+| OpDeletePrevWord of word_def * nat
+| OpNextWord of at_pos * word_def * nat
+| OpMoveTo of char_search * nat
+| OpDeleteWord of at_pos * word_def * nat
+| OpDeleteTo of char_search * nat
+| OpEditWord of word_action
+| OpTransposeWords of nat
+| OpReplace of nat * nat * str
+| OpInsertStr of nat * str
+| OpDeleteRange of nat * nat
+| OpCopy of movement
+| OpKill of movement
+| OpIndent of movement * nat * bool
+| OpUpdate of str * nat
+| OpSetPos of nat
+| OpNextPos of nat
+
+type lbret =
+| RUnit
+| RBool of bool
+| ROptBool of bool option
+| ROptStr of str option
+| ROptNat of nat option
+
+val mapM : ('a1 -> 'a2) -> 'a1 m -> 'a2 m
+
+val pureM : (lb -> 'a1 res) -> 'a1 m
+
+val lb_apply : uData -> (str -> str list) -> lbop -> lbret m
+
+val lb_run :
+  uData -> (str -> str list) -> lbop list -> lb -> ((lbret * lb) * event
+  list) option list
